@@ -112,7 +112,8 @@ pub fn sym(args: &[String]) {
         }
         // ---- (S) power-of-two scaling of a linear homogeneous system
         if matches!(s.kind, Kind::Harmonic | Kind::Decay3 | Kind::Slow) && !with_event {
-            let k = rng.below(41) as i32 - 20;
+            // one case in four far from unit scale (2^±60 .. 2^±160: absolute thresholds such as `scale.max(EPSILON)` show there)
+            let k = if rng.below(4) == 0 { (60 + rng.below(101) as i32) * if rng.below(2) == 0 { 1 } else { -1 } } else { rng.below(41) as i32 - 20 };
             let sc = 2f64.powi(k);
             let p = Prob { user_jac: s.user_jac, ..Prob::new(s.kind) };
             let y0s: Vec<f64> = y0.iter().map(|v| v * sc).collect();
@@ -458,6 +459,29 @@ pub fn mass(args: &[String]) {
             r15(case, "partition-default-options", Method::RADAU, "c15-partition-default", &why, &format!("{}\"nind2\":{},\"nind3\":{},", extra, nind2, nind3));
         }
     }
+    // (g) a lower-bidiagonal Jacobian whose sub-diagonal dominates the diagonal: factorising I − cJ exchanges rows, which
+    // fills in above the band; Full and Banded storage (exact band, wider band) must still give the same trajectory
+    let mut k = 0;
+    for m in [Method::BDF, Method::RADAU] {
+        for n in 2..=6usize {
+            let run = |st: MatrixStorage| { let mut y0 = vec![0.0; n]; y0[0] = 1.0; radau_run(&Cascade { n }, 0.0, 30.0, &y0, 1e-6, 1e-9, MatrixStorage::Identity, st, m) };
+            let full = run(MatrixStorage::Full);
+            for (name, st) in [("Banded{1,0}", MatrixStorage::Banded { ml: 1, mu: 0 }), ("Banded{2,1}", MatrixStorage::Banded { ml: 2.min(n - 1), mu: 1 })] {
+                let why = match (&full, &run(st)) {
+                    (Some(f), Some(b)) => if same_traj(f, b) { String::new() } else { format!("cascade (sub-diagonal 200), n = {}: Jacobian in {} storage ends {:?} with {} samples, in Full storage {:?} with {}", n, name, b.status, b.t.len(), f.status, f.t.len()) },
+                    _ => "run fails".into() };
+                r15(900000 + k, "storage-jac-cascade", m, "c15-storage", &why, &format!("\"n\":{},\"storage\":\"{}\",", n, name));
+                k += 1;
+            }
+        }
+    }
+}
+
+/// y0' = −y0, yi' = 200 y(i−1) − yi − 0.1 yi³: lower-bidiagonal Jacobian (written inside the band only)
+struct Cascade { n: usize }
+impl IVP for Cascade {
+    fn ode(&self, _x: f64, y: &[f64], d: &mut [f64]) { d[0] = -y[0]; for i in 1..self.n { d[i] = 200.0 * y[i - 1] - y[i] - 0.1 * y[i] * y[i] * y[i]; } }
+    fn jac(&self, _x: f64, y: &[f64], j: &mut Matrix) { j[(0, 0)] = -1.0; for i in 1..self.n { j[(i, i - 1)] = 200.0; j[(i, i)] = -1.0 - 0.3 * y[i] * y[i]; } }
 }
 
 // ------------------------------------------------------------------------------------------------------------ C01
